@@ -125,6 +125,18 @@ theorem goCopyN_of_le {α : Type} (dst src : List α) (h : src.length ≤ dst.le
     goCopyN dst src = src.length := by
   simp only [goCopyN]; rw [Nat.min_eq_right h]
 
+/-- A translated range loop whose body, on the elements of `xs` and on states that satisfy the
+invariant `P`, always falls through to the next element with the state `g s x`, is a left fold. -/
+theorem goRangeFrom?_fold {α σ ρ : Type} (P : σ → Prop) (g : σ → α → σ) (f : σ → Int → α → Option (Step σ ρ)) :
+    ∀ (xs : List α) (i : Int) (s : σ), P s →
+      (∀ s i x, x ∈ xs → P s → f s i x = some (.next (g s x)) ∧ P (g s x)) →
+      goRangeFrom? i xs s f = some (.inl (xs.foldl g s)) ∧ P (xs.foldl g s)
+  | [], _, _, hs, _ => ⟨rfl, hs⟩
+  | x :: xs, i, s, hs, h => by
+    rw [goRangeFrom?, (h s i x (by simp) hs).1]
+    exact goRangeFrom?_fold P g f xs (i + 1) (g s x) (h s i x (by simp) hs).2
+      (fun s i y hy => h s i y (by simp [hy]))
+
 theorem goWrapU_of_range {m x : Int} (h0 : 0 ≤ x) (h1 : x < m) : goWrapU m x = x :=
   Int.emod_eq_of_lt h0 h1
 
